@@ -28,6 +28,14 @@ ADDED SUBSET (everything of pyobj.py / pybytes.py stays)
               on it is resolved statically) and gets the suffix `_True` / `_False`
   statements  d[k] = v | s.add(x) | `from m import N` inside a function (N may then only occur in annotations) | NAME: T (no value)
               a loop variable / loop-local name may be re-used as a local of a later loop
+  value-or-None result   a function with `return <value>` on some paths and a bare `return` on others: R = `Option T`, the bare
+              return is `some none`, `return v` is `some (some v)` (`none` stays "raises")
+  return inside a loop   `for x in xs: ... return e ...`: the loop becomes `Py.loop?` (PyBytes.lean: a fold that stops at the first
+              `break`) over the state `(ret_, <loop-carried variables>)` with `ret_ : Option R`; `return e` = set `ret_ := some e` and stop;
+              after the loop `match ret_ with | some r => some r | none => <rest of the function>`
+  raising attribute      a declared attribute path whose evaluation can raise (`shard.custom.shard_hashes` when `custom` is None):
+              hoisted like a raising call;  `optlist:C` = a list whose elements may be None (loop variable : Option C, narrowed
+              by `x is not None and ...`);  `a == b` on two struct objects with a declared `eq`
 Everything else raises `Untranslatable` (the caller records the tie as 'lost'; never a violation by itself).
 """
 import ast
@@ -92,6 +100,8 @@ class FProgram(pyobj.Program):
             return f'List {tpar(self.lean_ty(t[4:]))}'
         if t == HEX:
             return 'Bytes'
+        if isinstance(t, str) and t.startswith('optlist:'):
+            return f'List (Option {tpar(self.classes[t[8:]]["lean"])})'
         return super().lean_ty(t)
 
     def function(self, name, argtypes, consts=None):
@@ -194,6 +204,9 @@ class FTr(MTr):
         self.ret_type = None
         self.has_value_return = any(isinstance(n, ast.Return) and n.value is not None and not
                                     (isinstance(n.value, ast.Constant) and n.value.value is None) for n in ast.walk(fn))
+        bare = any(isinstance(n, ast.Return) and (n.value is None or (isinstance(n.value, ast.Constant) and n.value.value is None))
+                   for n in ast.walk(fn))
+        self.mixed = self.has_value_return and bare          # value-or-None result: R = Option T
         self.mutated = []
         self.mut_names = self.mutated_names(fn)
         self.local_types = prog.local_types.get(fn.name, {})
@@ -264,10 +277,16 @@ class FTr(MTr):
                     raise Untranslatable(f'`in` of a {kt} in a {ct}')
                 return (txt if isinstance(op, ast.In) else f'(¬ {txt})'), PROP
             if isinstance(op, (ast.Eq, ast.NotEq)):
+                f0, pre0 = self.fresh, list(self.pre)
                 l, r = self.expr(e.left), self.expr(c)
                 for t in (l[1], r[1]):
                     if is_opt(t) or is_dict(t) or is_set(t) or t == HEX:
                         raise Untranslatable(f'comparison of a {t}')
+                d = self.struct(l[1])
+                if d is not None and l[1] == r[1] and d.get('eq'):
+                    txt = d['eq'].format(par(l[0]), par(r[0]))
+                    return (txt if isinstance(op, ast.Eq) else f'(¬ {txt})'), PROP
+                self.fresh, self.pre = f0, pre0
         return super().expr(e)
 
     def attribute(self, e):
@@ -293,6 +312,10 @@ class FTr(MTr):
                 self.fresh, self.pre = f0, pre0
                 continue
             hit = d['attrs'].get('.'.join(p))
+            if hit is None and '.'.join(p) in d.get('raising_attrs', {}):
+                hit = d['raising_attrs']['.'.join(p)]           # an attribute path that can raise (a None in the middle): hoisted
+                self.use_ext(hit[2:])
+                return self.hoist(hit[0].format(par(bv)), p[-1]), hit[1]
             if hit is None:
                 self.fresh, self.pre = f0, pre0
                 continue
@@ -524,7 +547,7 @@ class FTr(MTr):
                             out.append(t.value.id)
         return out
 
-    def block(self, stmts, kont):
+    def block_(self, stmts, kont):
         if stmts:
             s, rest = stmts[0], stmts[1:]
             if isinstance(s, ast.ImportFrom):
@@ -612,7 +635,7 @@ class FTr(MTr):
                 try:
                     return super().if_(s, rest, kont)
                 except Untranslatable as e:
-                    if 'conditionally' not in str(e):
+                    if 'conditionally' not in str(e) and 'may be None' not in str(e):
                         raise
                 self.env, self.fresh, self.pre, self.ext_used = saved
                 # `if a or b: S else: T` = `if a: S else: (if b: S else: T)` (and dually for `and`): the later operands, which can
@@ -650,15 +673,112 @@ class FTr(MTr):
         for k in list(self.env):
             if self.env[k] == POISON and (k == x or k in self.assigned(s.body)) and not k.startswith('self_'):
                 dropped[k] = self.env.pop(k)
+        if any(isinstance(n, ast.Return) for st in s.body for n in ast.walk(st)):
+            return self.for_with_return(s, rest, kont)
         return super().for_(s, rest, kont)
 
-    def ret(self, s):
-        if s.value is None or (isinstance(s.value, ast.Constant) and s.value.value is None):
-            if self.loops:
+    RET = '⟪R⟫'                    # the result type of the function, filled in by translate()
+
+    def for_with_return(self, s, rest, kont):
+        """a loop whose body contains `return`: Py.loop? over (ret_, loop-carried variables); `return e` sets ret_ and stops"""
+        if s.orelse:
+            raise Untranslatable('for ... else')
+        if not isinstance(s.target, ast.Name):
+            raise Untranslatable('loop target')
+        if self.loops:
+            raise Untranslatable('return inside a nested loop')
+        x = s.target.id
+        if self.env.get(x, POISON) != POISON or x in pybytes.LEAN_RESERVED or x in ('H', 'ret_') or x.startswith('self_'):
+            raise Untranslatable(f'loop variable {x} shadows a name')
+        if 'ret_' in self.env:
+            raise Untranslatable('a local named ret_')
+        it = s.iter
+        if ast.unparse(it) in self.mut_names:
+            raise Untranslatable('loop over a list that the function mutates')
+        xs, lt = self.expr(it)
+        if lt.startswith('optlist:'):
+            xt = OPT(OBJ(lt[8:]))
+        elif lt.startswith('list:'):
+            xt = OBJ(lt[5:])
+        elif lt in (NATLIST, BYTES):
+            xt = NAT
+        elif lt == BYTESLIST:
+            xt = BYTES
+        else:
+            raise Untranslatable(f'loop over a {lt}')
+        pre = self.take_pre()
+        A = self.assigned(s.body)
+        state = sorted(k for k in A if k in self.env)
+        for k in state:
+            if self.env[k] == POISON:
+                raise Untranslatable(f'{k} is not defined on all paths reaching the loop that assigns it')
+        env0 = dict(self.env)
+        self.env[x] = xt
+
+        def tup(first):
+            vals = [first]
+            for k in state:
+                if self.env.get(k) != env0[k]:
+                    raise Untranslatable(f'{k} changes its type in the loop body ({env0[k]} -> {self.env.get(k)})')
+                vals.append(lname(k))
+            return '(' + ', '.join(vals) + ')' if len(vals) > 1 else vals[0]
+
+        def pack():                      # the end of the body / continue: go on
+            return f'some ({tup("none")}, false)'
+
+        self.loops.append(pack)
+        self.loop_ret = lambda v: f'some ({tup(f"some {par(v)}")}, true)'
+        try:
+            body = self.block(list(s.body), pack)
+        finally:
+            self.loops.pop()
+            self.loop_ret = None
+        self.env = dict(env0)
+        for k in A:
+            if k not in state:
+                self.env[k] = POISON
+        self.env[x] = POISON
+        r = self.block(rest, kont)
+        pat = ', '.join(['ret_'] + [lname(k) for k in state])
+        ty = ' × '.join([f'Option ({self.RET})'] + [tpar(self.prog.lean_ty(env0[k])) for k in state])
+        init = '(' + ', '.join(['none'] + [lname(k) for k in state]) + ')' if state else 'none'
+        return self.wrap(pre, f'(Py.loop? {xs} {init} (fun ({lname(x)} : {self.prog.lean_ty(xt)}) (({pat}) : {ty}) =>\n{indent(body)})).bind '
+                              f'fun (({pat}) : {ty}) =>\nmatch ret_ with\n| some ret_ => some ret_\n| none =>\n{indent(r)}')
+
+    loop_ret = None
+
+    def ret_value(self, s):
+        """(hoists, Lean text of the function result R) of a return statement"""
+        bare = s.value is None or (isinstance(s.value, ast.Constant) and s.value.value is None)
+        if bare:
+            if self.has_value_return and not self.mixed:
+                raise Untranslatable('a function that returns a value on some paths and None on others')
+            return [], ('none' if self.mixed else '()')
+        v, t = self.stored(self.expr(s.value))
+        pre = self.take_pre()
+        if self.ret_type is None:
+            self.ret_type = t
+        elif self.ret_type != t:
+            raise Untranslatable(f'returns of different types ({self.ret_type}, {t})')
+        return pre, (f'(some {par(v)})' if self.mixed else v)
+
+    def block(self, stmts, kont):
+        if stmts and isinstance(stmts[0], ast.Return) and self.loops:
+            if self.loop_ret is None:
                 raise Untranslatable('return inside a loop')
+            pre, v = self.ret_value(stmts[0])
+            return self.wrap(pre, self.loop_ret(v))
+        return self.block_(stmts, kont)
+
+    def ret(self, s):
+        if self.mixed:
+            pre, v = self.ret_value(s)
+            return self.wrap(pre, f'some {par(v)}')
         return super().ret(s)
 
     def end(self):
+        if self.mixed:
+            return 'some none'
         if self.has_value_return:
             raise Untranslatable('control reaches the end of a function that returns a value elsewhere')
         return 'some ()'
@@ -669,8 +789,11 @@ class FTr(MTr):
             if self.ret_type is None:
                 raise Untranslatable(f'{self.fn.name}: no path returns a value')
             rt = self.prog.lean_ty(self.ret_type)
+            if self.mixed:
+                rt = f'Option {tpar(rt)}'
         else:
             rt = 'Unit'
+        body = body.replace(self.RET, rt)
         ext = [('ext', n, self.prog.externs[n]['lean'], None) for n in self.prog.externs if n in self.ext_used]
         tps = []
         for _, n, _, _ in ext:
@@ -695,7 +818,8 @@ class FTr(MTr):
                 ps.append(f'({ln} : {self.prog.lean_ty(t)})')
         doc = pybytes.doc_of(self.fn, f'{self.prog.src}: {self.fn.name}')
         text = f'{doc}def {self.lean} {" ".join(ps)} : Option ({rt}) :=\n{indent(body)}\n'
-        return dict(lean=self.lean, sig=sig, ret=self.ret_type if self.has_value_return else None, mutated=[], text=text)
+        ret = (OPT(self.ret_type) if self.mixed else self.ret_type) if self.has_value_return else None
+        return dict(lean=self.lean, sig=sig, ret=ret, mutated=[], text=text)
 
 
 def is_self_like(e):
